@@ -115,7 +115,7 @@ def wl_C07(rng, w, cfg, index):
     cfg = dict(cfg)
     wts = dict(cfg.get('weights') or {})
     for k in ('remove', 'replace', 'replace_other', 'dot_none', 'remove_foreign', 'to_string_ic', 'check_ic', 'readd',
-              'remove_stale'):
+              'remove_stale', 'replace_raw'):
         wts[k] = 0.0
     wts['add_bad'] = 2.5
     wts['fwd'] = 1.2
@@ -130,7 +130,7 @@ def wl_C10(rng, w, cfg, index):
     cfg = dict(cfg)
     wts = dict(cfg.get('weights') or {})
     wts.update({'add_bad': 3.0, 'add_foreign': 0.8, 'attr_bad': 0.8, 'value_bad': 0.6, 'remove_foreign': 0.6, 'fwd': 1.0,
-                'remove_stale': 0.8, 'replace': 1.5, 'add_to_leaf': 0.5,
+                'remove_stale': 0.8, 'replace': 1.5, 'add_to_leaf': 0.5, 'replace_raw': 0.8,
                 'to_string': 1.5, 'check': 0.6, 'to_string_ic': 0.0, 'check_ic': 0.0})
     cfg['weights'] = wts
     cfg['p_ic'] = 0.0
@@ -208,8 +208,10 @@ def wl_C13(rng, w, cfg, index):
         progs.append(gen.prog_history(kit, a, 'd%d' % a, elems[a], c))
     if rng.random() < 0.4:
         progs.append(prog_copier(kit, nact, 'd0', 'd%d' % nact, cfg))
-    for j in range(rng.choice([0, 0, 1, 2, 3])):
+    for j in range(rng.choice([0, 1, 2, 3, 4])):
         progs.append(prog_attrs(kit, 5 + j, 'x%d' % j, cfg))
+    if rng.random() < 0.5:
+        progs.append(prog_values(kit, 4, cfg))
 
     def program():
         if rng.random() < 0.5:
@@ -229,6 +231,8 @@ def wl_C13(rng, w, cfg, index):
                 yield {'op': 'OBS', 'p': [d], 'accept': accept_symbols(kit, root, 4), 'deep': True}
         for op in CANARY:
             yield dict(op)
+        for op in probe_ops(rng):
+            yield op
     return program(), {'elements': elems, 'actors': nact}
 
 
@@ -257,7 +261,7 @@ def wl_C14(rng, w, cfg, index):
     cfg['p_attrs'] = rng.choice([0.3, 0.6])
     cfg['p_ic'] = 0.0
     wts = dict(cfg.get('weights') or {})
-    wts.update({'attr': 2.0, 'dot_value': 1.0, 'deep': 1.0, 'to_string_ic': 0.0, 'check_ic': 0.0})
+    wts.update({'attr': 2.0, 'dot_value': 1.0, 'deep': 1.5, 'to_string_ic': 0.0, 'check_ic': 0.0, 'remove': 3.0, 'dot_none': 1.0})
     cfg['weights'] = wts
     cfg['p_final_serialise'] = 0.0
     kit = Kit(rng, w, cfg)
@@ -277,6 +281,11 @@ def wl_C14(rng, w, cfg, index):
         subs = [n for n in root.walk() if n is not root and n.children]
         if subs and rng.random() < 0.25:
             src = w.path_of(rng.choice(subs))
+        pool = w.detached_of('d0')
+        det = [k for k, n in enumerate(pool) if n.parent is None]
+        if det and rng.random() < 0.5:
+            # a subtree that was removed / replaced out earlier: a detached element is a document of its own
+            yield {'op': 'DEEPCOPY', 'a': 1, 'p': ['d0'], 'reuse': rng.choice(det), 'reuse_doc': 'd0', 'doc': 'd2'}
         yield {'op': 'DEEPCOPY', 'a': 1, 'p': src, 'doc': 'd1'}
         cp = w.docs.get('d1')
         if cp is None:
@@ -434,6 +443,22 @@ def wl_C04(rng, w, cfg, index):
         return rng.choice(pool) if pool else None
 
     def program():
+        if table and rng.random() < 0.5:
+            # another class first, in the same process, given an attribute of the same *name* (tables, enumerations
+            # and validation caches are per type: what another type accepted must not leak)
+            a0 = rng.choice(table)[0]
+            others = [n for n in spec.ALL_ELEMENTS if n != elem and a0 in spec.attributes_of_element(n)
+                      and spec.attributes_of_element(n)[a0]['type'] != dict(table)[a0]['type']]
+            if others:
+                o = rng.choice(others)
+                d0 = spec.attributes_of_element(o)[a0]
+                g0, _b0 = spec.exemplars(d0['type'])
+                yield {'op': 'NEW', 'a': 1, 'doc': 'warm', 'c': {'name': o, 'value': gen.default_value(o), 'attrs': {}, 'xsd_check': True}}
+                if 'warm' in w.docs:
+                    own_lits = set(map(str, spec.exemplars(dict(table)[a0]['type'])[0]))
+                    foreign = [x for x in g0 if str(x) not in own_lits] or g0
+                    for v0 in foreign[:3]:
+                        yield {'op': 'ATTR_SET', 'a': 1, 'p': ['warm'], 'name': spec.py_attr_name(a0), 'value': v0}
         cs = {'name': elem, 'value': gen.default_value(elem), 'attrs': {}, 'xsd_check': True}
         via_ctor = rng.random() < 0.4 and table
         if via_ctor:
@@ -544,6 +569,10 @@ def wl_C15(rng, w, cfg, index):
                 g = [d['fixed']]
             if g:
                 attrs[spec.py_attr_name(a)] = rng.choice(b) if (b and rng.random() < 0.1) else rng.choice(g)
+                if spec.simple_info(d['type'])['kind'] in ('token', 'string', 'pattern') and rng.random() < 0.3:
+                    # free text with irregular white space: whatever the verdict, both surfaces must agree and a
+                    # read must return what was assigned
+                    attrs[spec.py_attr_name(a)] = rng.choice([' a  b ', 'x\ty', 'Times  New Roman', ' lead', 'trail ', 'a\nb'])
         base = {'name': elem, 'value': gen.default_value(elem), 'xsd_check': True}
         # attributes: constructor keywords on A; dot assignment on B
         yield {'op': 'PAIR', 'step': 'create+attributes', 'first': 'explicit',
@@ -553,11 +582,23 @@ def wl_C15(rng, w, cfg, index):
         if 'dA' not in w.docs or 'dB' not in w.docs:
             return
         A, B = w.docs['dA'], w.docs['dB']
+        for k in list(attrs)[:2]:
+            yield {'op': 'ATTR_GET', 'a': 1, 'p': [rng.choice(['dA', 'dB'])], 'name': k}
         for _ in range(rng.randint(2, 10)):
             name = rng.choice(sub)
             exA = [i for i, c in enumerate(A.children) if c.name == name]
             exB = [i for i, c in enumerate(B.children) if c.name == name]
             if len(exA) > 1 or len(exB) > 1:
+                # several same-named children: which one the shortcut addresses is its own business, but a value
+                # assigned through it must be the value read back through it
+                g2, _b2 = spec.element_value_exemplars(name)
+                if g2 and len(exB) > 1:
+                    v2 = rng.choice(g2)
+                    yield {'op': 'DOT_SET', 'a': 1, 'p': ['dB'], 'name': name, 'v': {'kind': 'value', 'value': v2}}
+                    if w.events[-1]['r'] == 'ok':
+                        yield {'op': 'DOT_GET', 'a': 1, 'p': ['dB'], 'name': name, 'ryw': v2}
+                    # keep the twin document in step through the same surface
+                    yield {'op': 'DOT_SET', 'a': 0, 'p': ['dA'], 'name': name, 'v': {'kind': 'value', 'value': v2}}
                 continue
             r = rng.random()
             g, b = spec.element_value_exemplars(name)
@@ -586,6 +627,12 @@ def wl_C15(rng, w, cfg, index):
                 else:
                     ea = {'op': 'ADD', 'a': 0, 'p': ['dA'], 'c': cs}
                 eb = {'op': 'DOT_SET', 'a': 1, 'p': ['dB'], 'name': name, 'v': {'kind': 'element', 'c': cs}}
+            elif r < 0.72 and model.extendable([c.name for c in A.children] + [name]):
+                # a further child of the same name (explicit add on both documents), so that duplicates exist
+                cs = kit.childspec(name)
+                yield {'op': 'PAIR', 'step': 'add-another:' + name, 'first': 'explicit',
+                       'explicit': [{'op': 'ADD', 'a': 0, 'p': ['dA'], 'c': cs}], 'shortcut': [{'op': 'ADD', 'a': 1, 'p': ['dB'], 'c': cs}]}
+                continue
             elif r < 0.85:
                 step = 'remove-child'
                 if exA:
@@ -643,10 +690,14 @@ def wl_C18(rng, w, cfg, index):
     cfg['p_ic'] = 0.0
     kit = Kit(rng, w, cfg)
     elem = gen.pick_elements(rng, 1, index)[0]
+    if index % 9 == 4:
+        elem = 'score-partwise'     # the one class with write()
     model = spec.model_for_element(elem)
 
     def program():
         mode = rng.choice(['free', 'twin', 'nested', 'transplant'])
+        if elem == 'score-partwise' and mode in ('twin', 'transplant'):
+            mode = 'nested'
         if mode == 'transplant':
             # children that lived in a checked element (added, then replaced out / removed) move into an
             # unchecked one, where every structural operation must still succeed
@@ -772,6 +823,12 @@ def wl_C18(rng, w, cfg, index):
             else:
                 yield {'op': 'TO_STRING', 'a': 0, 'p': p, 'ic': False}
         yield {'op': 'TO_STRING', 'a': 0, 'p': ['d0'], 'ic': False}
+        if root.name == 'score-partwise':
+            yield {'op': 'WRITE', 'a': 0, 'doc': 'd0', 'path': 'u.xml', 'ic': False}
+        if rng.random() < 0.4:
+            un = [n for n in root.walk() if all(not x.xsd_check for x in n.walk())]
+            if un:
+                yield {'op': 'DEEPCOPY', 'a': 0, 'p': w.path_of(rng.choice(un)), 'doc': 'dcopy'}
     return program(), {'elements': [elem]}
 
 
@@ -822,7 +879,13 @@ def wl_C17(rng, w, cfg, index):
             pk, pb = prior if prior else rng.choice(priors)
             if pb is not None:
                 pre.append({'op': 'FAULT', 'kind': 'fs.prior', 'params': {'path': path, 'hex': pb.hex()}})
-            body = [dict(o, path=path) if o['op'] in ('WRITE', 'PARSE') else o for o in ops]
+            body = []
+            for o in ops:
+                if o['op'] in ('WRITE', 'PARSE'):
+                    o = dict(o, path=path)
+                elif o['op'] == 'FAULT' and (o.get('params') or {}).get('path') == '?':
+                    o = dict(o, params=dict(o['params'], path=path))
+                body.append(o)
             return {'case': pre + body + [{'op': 'FSSTATE', 'path': path}], 'label': label + '/' + pk + '/' + (enc or 'utf-8')}
 
         W = {'op': 'WRITE', 'a': 0, 'doc': 'd0', 'path': '?', 'ic': False}
@@ -866,6 +929,16 @@ def wl_C17(rng, w, cfg, index):
             yield case('parse', [dict(W), {'op': 'PARSE', 'a': 0, 'path': '?', 'doc': 'p0', 'c17ref': True},
                                  {'op': 'FAULT', 'kind': 'fs.encoding', 'params': {'encoding': enc}},
                                  {'op': 'PARSE', 'a': 0, 'path': '?', 'doc': 'p1', 'c17cmp': 'p0'}], priors[0], None)
+        # 4c. the same for damaged files (truncated / rotted / flipped): the parser must fail the same way under
+        #     every default encoding
+        for enc in encs[1:]:
+            dk = rng.choice(['disk.truncate', 'disk.token_rot', 'disk.flip'])
+            dp = {'path': '?', 'offset': rng.randrange(1, 4000), 'bit': rng.randrange(8), 'index': rng.randrange(1000),
+                  'k': rng.randrange(1000), 'what': rng.choice(['tag', 'attr-name', 'attr-value', 'text'])}
+            yield case('parse-damaged', [dict(W), {'op': 'FAULT', 'kind': dk, 'params': dp},
+                                         {'op': 'PARSE', 'a': 0, 'path': '?', 'doc': 'p0', 'c17ref': True},
+                                         {'op': 'FAULT', 'kind': 'fs.encoding', 'params': {'encoding': enc}},
+                                         {'op': 'PARSE', 'a': 0, 'path': '?', 'doc': 'p1', 'c17cmp': 'p0'}], priors[0], None)
         # 5. a broken node together with an injected encoding and an old score in place (the combination
         #    the property is about: the user's previous file is at stake)
         if nodes:
@@ -1134,3 +1207,52 @@ def prog_attrs(kit, actor, doc, cfg):
         else:
             yield {'op': 'TO_STRING', 'a': actor, 'p': [doc], 'ic': False}
     yield {'op': 'READ', 'a': actor, 'p': [doc], 'which': 'attributes'}
+
+
+def probe_ops(rng, n=6):
+    """Fresh-instance probes appended to C13 runs (documents 'canaryP*'): elements of random classes offered values
+    that are literals of a *related* enumeration (base / sibling type) or ordinary valid / invalid exemplars.  Their
+    outcomes in a pristine process are the reference (projection twin)."""
+    ak = _attr_kinds()
+    out = []
+    enums = [x for x in ak if x[2] == 'enum']
+    for j in range(n):
+        (name, a, k, t, r) = rng.choice(enums) if rng.random() < 0.6 else rng.choice(ak)
+        g, b = spec.exemplars(t)
+        pool = (b[2:] if len(b) > 2 and rng.random() < 0.6 else b) + (g[:1] if rng.random() < 0.4 else [])
+        if not pool:
+            continue
+        doc = 'canaryP%d' % j
+        out.append({'op': 'NEW', 'a': 9, 'doc': doc, 'c': {'name': name, 'value': default_value(name), 'attrs': {}, 'xsd_check': True}})
+        out.append({'op': 'ATTR_SET', 'a': 9, 'p': [doc], 'name': spec.py_attr_name(a), 'value': rng.choice(pool)})
+    # simple-content elements with a related literal as value
+    vals = [n for n in spec.ALL_ELEMENTS if spec.type_kind(spec.ELEM_TYPE[n]) == 'simple']
+    for j in range(3):
+        name = rng.choice(vals)
+        g, b = spec.element_value_exemplars(name)
+        if b:
+            out.append({'op': 'NEW', 'a': 9, 'doc': 'canaryV%d' % j, 'c': {'name': name, 'value': rng.choice(b), 'attrs': {}, 'xsd_check': True}})
+    return out
+
+
+from .world import default_value  # noqa: E402
+
+
+def prog_values(kit, actor, cfg):
+    """C13 actor: many small standalone elements with simple content / enumerated attributes, all *valid* - the
+    neighbours whose tables and caches later probes must not inherit."""
+    rng = kit.rng
+    ak = _attr_kinds()
+    vals = [n for n in spec.ALL_ELEMENTS if spec.type_kind(spec.ELEM_TYPE[n]) == 'simple']
+    for j in range(rng.randint(3, 10)):
+        if rng.random() < 0.5:
+            name = rng.choice(vals)
+            g, _b = spec.element_value_exemplars(name)
+            if g:
+                yield {'op': 'NEW', 'a': actor, 'doc': 'v%d' % j, 'c': {'name': name, 'value': rng.choice(g), 'attrs': {}, 'xsd_check': True}}
+        else:
+            (name, a, k, t, r) = rng.choice(ak)
+            g, _b = spec.exemplars(t)
+            if g:
+                yield {'op': 'NEW', 'a': actor, 'doc': 'v%d' % j, 'c': {'name': name, 'value': default_value(name),
+                                                                        'attrs': {spec.py_attr_name(a): rng.choice(g)}, 'xsd_check': True}}
